@@ -233,7 +233,10 @@ class Ctx:
         return p
 
     def known_finding(self, entry, detail=""):
-        line = "KNOWN-FINDING: property=%s %s%s" % (self.pid, entry["what"], (" [" + detail + "]") if detail else "")
+        # one line per listed finding (the failing cases it covered are counted in the evidence)
+        line = "KNOWN-FINDING: property=%s %s" % (self.pid, entry["what"])
+        self.known_cases = getattr(self, "known_cases", {})
+        self.known_cases.setdefault(entry.get("id", entry["what"][:40]), []).append(detail)
         if line not in self.known:
             self.known.append(line)
 
